@@ -20,7 +20,19 @@ func ratOfFloat(v float64) string {
 func genSimplifyPath(r *RNG) clip.Path64 {
 	switch r.Intn(5) {
 	case 0:
-		return genTrimPath(r)
+		// C16 is stated for magnitudes up to 2^29: paths of the trim generator beyond that are not used here
+		for {
+			p := genTrimPath(r)
+			ok := true
+			for _, q := range p {
+				if abs64(q.X) > 1<<29 || abs64(q.Y) > 1<<29 {
+					ok = false
+				}
+			}
+			if ok {
+				return p
+			}
+		}
 	case 1: // noisy line / curve: many near-collinear vertices
 		n := 4 + r.Intn(20)
 		p := make(clip.Path64, n)
